@@ -253,6 +253,9 @@ impl Store {
             None
         };
 
+        #[cfg(feature = "verif")]
+        crate::verif::sync_point("read.after_subscribe", None);
+
         // Only create done channel if we're doing historical processing
         let done_rx = if !options.tail {
             let (done_tx, done_rx) = tokio::sync::oneshot::channel();
@@ -283,11 +286,16 @@ impl Store {
                         }
                     }
 
+                    #[cfg(feature = "verif")]
+                    crate::verif::sync_point("read.hist.before_send", Some(frame.id));
                     if tx_clone.blocking_send(frame).is_err() {
                         return;
                     }
                     count += 1;
                 }
+
+                #[cfg(feature = "verif")]
+                crate::verif::sync_point("read.hist.before_threshold", None);
 
                 // Send threshold message if following and no limit
                 if should_follow_clone && options.limit.is_none() {
@@ -300,6 +308,9 @@ impl Store {
                         return;
                     }
                 }
+
+                #[cfg(feature = "verif")]
+                crate::verif::sync_point("read.hist.before_done", last_id);
 
                 // Signal completion with the last seen ID and count
                 let _ = done_tx.send((last_id, count));
@@ -326,8 +337,14 @@ impl Store {
                         None => (None, 0),
                     };
 
+                    #[cfg(feature = "verif")]
+                    crate::verif::sync_point("read.live.after_done", last_id);
+
                     let mut broadcast_rx = broadcast_rx;
                     while let Ok(frame) = broadcast_rx.recv().await {
+                        #[cfg(feature = "verif")]
+                        crate::verif::sync_point("read.live.after_recv", Some(frame.id));
+
                         // Skip frames that do not match the context_id
                         if let Some(context_id) = options.context_id {
                             if frame.context_id != context_id {
@@ -483,13 +500,19 @@ impl Store {
         batch.insert(&self.frame_partition, frame.id.as_bytes(), encoded);
         batch.insert(&self.idx_topic, topic_key, b"");
         batch.insert(&self.idx_context, idx_context_key_from_frame(frame), b"");
+        #[cfg(feature = "verif")]
+        crate::verif::sync_point("insert.before_commit", Some(frame.id));
         batch.commit()?;
         self.keyspace.persist(fjall::PersistMode::SyncAll)?;
+        #[cfg(feature = "verif")]
+        crate::verif::sync_point("insert.after_commit", Some(frame.id));
         Ok(())
     }
 
     pub fn append(&self, mut frame: Frame) -> Result<Frame, crate::error::Error> {
         frame.id = scru128::new();
+        #[cfg(feature = "verif")]
+        crate::verif::sync_point("append.after_id", Some(frame.id));
 
         // Special handling for xs.context registration
         if frame.topic == "xs.context" {
@@ -523,7 +546,12 @@ impl Store {
             }
         }
 
+        #[cfg(feature = "verif")]
+        crate::verif::sync_point("append.after_commit", Some(frame.id));
+
         let _ = self.broadcast_tx.send(frame.clone());
+        #[cfg(feature = "verif")]
+        crate::verif::sync_point("append.after_broadcast", Some(frame.id));
         Ok(frame)
     }
 
@@ -617,6 +645,8 @@ fn is_expired(id: &Scru128Id, ttl: &Duration) -> bool {
         .duration_since(std::time::UNIX_EPOCH)
         .unwrap()
         .as_millis() as u64;
+    #[cfg(feature = "verif")]
+    let now_ms = crate::verif::now_override_ms().unwrap_or(now_ms);
 
     now_ms >= expires_ms
 }
